@@ -67,6 +67,7 @@ type FuncContract struct {
 	Impl     string // key of the interface-method contract this function implements
 	ImplType string // interface type text for asIface
 	ImplProps []string
+	QF       bool // quantifier-free query: the quantified background axioms are omitted
 }
 
 func (fc *FuncContract) props() []string {
@@ -311,6 +312,8 @@ func (db *DB) parseClause(text, file string, line int, pkg string, cur **FuncCon
 				fc.NoWorld = true
 			case "atomic":
 				fc.Atomic = true
+			case "qf":
+				fc.QF = true
 			default:
 				if strings.HasPrefix(fs[i], "impl:") {
 					t := strings.TrimPrefix(fs[i], "impl:")
